@@ -57,7 +57,7 @@ class EngineP(EngineBase):
         # a fixed, seed-independent pool keeps the per-worker parse cost bounded
         step = max(1, len(self.corpus_short) // 70)
         self.corpus_short = self.corpus_short[::step][:70]
-        self.short_texts = sorted({x for _, p in self.corpus_short + self.compounds for x in p} | set(corpus.MICRO))
+        self.short_texts = sorted({x for _, p in self.corpus_short + self.compounds for x in p} | set(corpus.MICRO) | set(BROKEN))
         # anything whose trees are already in the on-disk cache costs nothing in memo-parse runs
         self.corpus_cached = sorted((n, p) for n, p in beh.items() if all(x in self.tc.data for x in p))
 
@@ -73,10 +73,10 @@ class EngineP(EngineBase):
             self.ref[text] = hit
         return hit
 
-    def reference(self, workload):
+    def reference(self, workload, tasks=None):
         plan = workload["plan"]
         exp = {}
-        for t in workload["tasks"]:
+        for t in (workload["tasks"] if tasks is None else tasks):
             cans, exc = [], None
             for part in t["parts"]:
                 k = plan.get(text_key(part))
@@ -148,11 +148,27 @@ class EngineP(EngineBase):
                 name += "_"
             names.add(name)
             tasks.append({"name": name, "parts": parts})
+        # a run is a short *history* of Parser.parse calls in one process: later calls reuse names of earlier
+        # ones with other behaviours (module/class-level state of the parser must not leak between calls)
+        ncalls = ch.weighted([(1, 5), (2, 3), (3, 1)], "ncalls")
+        if ncalls > 1 and tasks:
+            cuts = sorted(ch.draw(len(tasks) + 1, "cut") for _ in range(ncalls - 1))
+            call = 0
+            for i, t in enumerate(tasks):
+                while call < len(cuts) and i >= cuts[call]:
+                    call += 1
+                t["call"] = call
+            first_names = [t["name"] for t in tasks if t["call"] == 0]
+            for t in tasks:
+                if t["call"] > 0 and first_names and ch.chance(1, 3, "reuse-name"):
+                    cand = ch.choice(first_names, "reused")
+                    if all(o["name"] != cand for o in tasks if o is not t and o["call"] == t["call"]):
+                        t["name"] = cand
         return {"mode": mode, "tasks": tasks, "plan": plan}
 
     def describe(self, wl):
         return {"mode": wl["mode"], "plan": wl["plan"],
-                "tasks": [{"name": t["name"], "parts": [p[:80] for p in t["parts"]]} for t in wl["tasks"]]}
+                "tasks": [{"name": t["name"], "call": t.get("call", 0), "parts": [p[:80] for p in t["parts"]]} for t in wl["tasks"]]}
 
     # ------------------------------------------------------------------ execution
     def _install(self):
@@ -183,20 +199,59 @@ class EngineP(EngineBase):
             setattr(mod, k, v)
 
     def execute(self, workload, tape, seed) -> Outcome:
+        """One run = one forked child of the batch worker: whatever the code under test keeps in module or
+        class attributes cannot leak from one run into the next, so every run replays in a fresh interpreter."""
+        import pickle
+        r, w = os.pipe()
+        pid = os.fork()
+        if pid == 0:
+            code = 0
+            try:
+                os.close(r)
+                out = self._execute_inproc(workload, tape, seed)
+                data = pickle.dumps({"violations": [v.to_json() for v in out.violations], "digest": out.digest, "tape": out.tape,
+                                     "counters": out.counters, "distinct": out.distinct, "compared": out.compared})
+                off = 0
+                while off < len(data):
+                    off += os.write(w, data[off:off + 65536])
+            except BaseException:  # noqa: BLE001
+                import traceback
+                traceback.print_exc(file=sys.__stderr__)
+                code = 3
+            finally:
+                os._exit(code)
+        os.close(w)
+        buf = bytearray()
+        while True:
+            c = os.read(r, 1 << 20)
+            if not c:
+                break
+            buf += c
+        os.close(r)
+        _, status = os.waitpid(pid, 0)
+        if status != 0 or not buf:
+            from sim.core import HarnessError
+            raise HarnessError(f"C18 run child failed (wait status {status})")
+        d = pickle.loads(bytes(buf))
+        out = Outcome()
+        out.violations = [Violation.from_json(v) for v in d["violations"]]
+        out.digest, out.tape, out.counters, out.distinct, out.compared = d["digest"], d["tape"], d["counters"], d["distinct"], d["compared"]
+        return out
+
+    def _execute_inproc(self, workload, tape, seed) -> Outcome:
         out = Outcome()
         ch = Chooser(tape=tape) if tape is not None else Chooser(seed=seed)
         log = EventLog()
         stats: dict = {}
-        tasks = workload["tasks"]
+        all_tasks = workload["tasks"]
         plan = workload["plan"]
         mode = workload["mode"]
-        exp = self.reference(workload)
         ParseSeam.reset(mode, plan)
         ParseSeam.parse_memo.clear()
         if mode == "memoparse":
             okey = tuple(sorted((k, repr(v)) for k, v in dict(start="fbody", parser="earley").items()))
             gk = faults.hashlib.sha256(self.grammar.encode()).hexdigest()[:20]
-            for t in tasks:
+            for t in all_tasks:
                 for part in t["parts"]:
                     if text_key(part) in plan:
                         continue
@@ -209,39 +264,44 @@ class EngineP(EngineBase):
             # the declared stub: one Lark object per (grammar, options), built before the pool forks
             FaultyLark(self.grammar, start="fbody", parser="earley")
             ParseSeam.constructed = 0
-        insn_behavior = {t["name"]: list(t["parts"]) for t in tasks}
-        simpool.SimPool.sim = (ch, log, stats)
-        saved = self._install()
-        old_err = sys.stderr
-        sys.stderr = self._devnull
-        result, raised = None, None
-        try:
-            result = self.P.Parser.parse(insn_behavior)
-        except BaseException as e:  # SimHang / SimStepCap are BaseExceptions on purpose
-            raised = e
-        finally:
-            sys.stderr = old_err
-            self._restore(saved)
-            simpool.cleanup_live_pools()
-            simpool.SimPool.sim = None
-        log.add("returned", type(raised).__name__ if raised is not None else "ok")
-
-        # ---------------- oracle
         V = out.violations
+        calls = sorted({t.get("call", 0) for t in all_tasks}) or [0]
+        n_fail_total = 0
+        for ci, call in enumerate(calls):
+            tasks = [t for t in all_tasks if t.get("call", 0) == call]
+            exp = self.reference(workload, tasks)
+            insn_behavior = {t["name"]: list(t["parts"]) for t in tasks}
+            simpool.SimPool.sim = (ch, log, stats)
+            saved = self._install()
+            old_err = sys.stderr
+            sys.stderr = self._devnull
+            result, raised = None, None
+            try:
+                result = self.P.Parser.parse(insn_behavior)
+            except BaseException as e:  # SimHang / SimStepCap are BaseExceptions on purpose
+                raised = e
+            finally:
+                sys.stderr = old_err
+                self._restore(saved)
+                simpool.cleanup_live_pools()
+                simpool.SimPool.sim = None
+            log.add("returned", ci, type(raised).__name__ if raised is not None else "ok")
 
-        def viol(cls, sigkey="", **detail):
-            V.append(Violation("C18", "seq-ref", cls, sigkey, detail))
+            def viol(cls, sigkey="", **detail):
+                detail["call"] = ci
+                V.append(Violation("C18", "seq-ref", cls, sigkey, detail))
 
-        if raised is not None:
-            if isinstance(raised, (simpool.SimHang,)):
-                viol("hang", "", message=str(raised), events=log.events[-12:])
-            elif isinstance(raised, simpool.SimStepCap):
-                viol("no-progress", "", message=str(raised))
-            else:
-                viol("raised", type(raised).__name__, message=str(raised)[:300], events=log.events[-8:])
-        elif not isinstance(result, dict):
-            viol("not-a-mapping", type(result).__name__)
-        else:
+            if raised is not None:
+                if isinstance(raised, (simpool.SimHang,)):
+                    viol("hang", "", message=str(raised), events=log.events[-12:])
+                elif isinstance(raised, simpool.SimStepCap):
+                    viol("no-progress", "", message=str(raised))
+                else:
+                    viol("raised", type(raised).__name__, message=str(raised)[:300], events=log.events[-8:])
+                break
+            if not isinstance(result, dict):
+                viol("not-a-mapping", type(result).__name__)
+                break
             want_names = [t["name"] for t in tasks]
             if set(result.keys()) != set(want_names):
                 viol("keys", "", missing=sorted(set(want_names) - set(result))[:5], extra=sorted(map(str, set(result) - set(want_names)))[:5])
@@ -282,40 +342,39 @@ class EngineP(EngineBase):
                         viol("wrong-exception-name", f"{val}", name=name, got=str(got))
                     if len(easts) != 0:
                         viol("trees-on-failure", "", name=name, trees=len(easts))
+            n_fail_total += sum(1 for k in exp.values() if k[0] == "exc")
+            # a planned fault fires iff sequential parsing reaches its part (the worker-side counter is out of reach)
+            for t in tasks:
+                for p in t["parts"]:
+                    k = plan.get(text_key(p))
+                    if k:
+                        out.count("fault_planned_" + k)
+                        out.count("fault_fired_" + k)
+                        break
+                    r = self.ref_parse(p)
+                    if r[0] != "ok":
+                        out.count("natural_parse_error_" + r[1])
+                        break
 
         # ---------------- probes / statistics
         sums = stats.get("pool_summaries", [])
         ooo = any(s["out_of_order"] for s in sums)
-        n_fault = sum(1 for t in tasks for p in t["parts"] if text_key(p) in plan)
-        n_fail = sum(1 for k in exp.values() if k[0] == "exc")
-        out.count("tasks", len(tasks))
+        out.count("tasks", len(all_tasks))
+        out.count("parse_calls", len(calls))
+        out.count("runs_with_several_calls", 1 if len(calls) > 1 else 0)
+        names = [t["name"] for t in all_tasks]
+        out.count("names_reused_across_calls", len(names) - len(set(names)))
         out.count("mode_" + mode)
         out.count("seam_pool_hits", stats.get("seam_hits", 0))
         out.count("seam_hit_runs", 1 if stats.get("seam_hits", 0) else 0)
         out.count("sched_steps", sum(s["steps"] for s in sums))
         out.count("out_of_order_runs", 1 if ooo else 0)
-        out.count("failing_entries", n_fail)
-        for t in tasks:
-            for p in t["parts"]:
-                k = plan.get(text_key(p))
-                if k:
-                    out.count("fault_planned_" + k)
-        # which faults fired is only visible inside pool workers; a planned fault fires iff its part is reached:
-        for t in tasks:
-            for p in t["parts"]:
-                k = plan.get(text_key(p))
-                r = None if k else self.ref_parse(p)
-                if k:
-                    out.count("fault_fired_" + k)
-                    break
-                if r[0] != "ok":
-                    out.count("natural_parse_error_" + r[1])
-                    break
+        out.count("failing_entries", n_fail_total)
         out.count("handler_died", stats.get("handler_died", 0))
         out.count("worker_died", stats.get("worker_died", 0))
         out.count("terminated_with_outstanding", stats.get("terminated_with_outstanding", 0))
         if sums:
-            out.count("shared_worker_runs", 1 if any(s["workers_used"] < len(tasks) and len(tasks) > 1 for s in sums) else 0)
+            out.count("shared_worker_runs", 1 if any(s["workers_used"] < len(all_tasks) and len(all_tasks) > 1 for s in sums) else 0)
             out.count("idle_worker_runs", 1 if any(s["workers_used"] < s["processes"] for s in sums) else 0)
             out.count("poolsize_%02d" % sums[0]["processes"])
         delivery = [e for e in log.events if e[0] in ("dispatch", "deliver", "pool")]
@@ -324,9 +383,8 @@ class EngineP(EngineBase):
         wl_digest = stable_hash(workload)[:16]
         out.see("schedules", stable_hash(delivery)[:16])
         out.see("workloads", wl_digest)
-        if ooo or n_fail:
+        if ooo or n_fail_total:
             out.see("nontrivial", wl_digest + ":" + stable_hash(delivery)[:16])
-        out.info = {"events": len(log), "stats": {k: v for k, v in stats.items() if k != "pool_summaries"}}
         return out
 
     # ------------------------------------------------------------------ shrinking
@@ -343,12 +401,12 @@ class EngineP(EngineBase):
             if len(t["parts"]) > 1:
                 for j in range(len(t["parts"])):
                     parts = t["parts"][:j] + t["parts"][j + 1:]
-                    tasks = wl["tasks"][:i] + [{"name": t["name"], "parts": parts}] + wl["tasks"][i + 1:]
+                    tasks = wl["tasks"][:i] + [dict(t, parts=parts)] + wl["tasks"][i + 1:]
                     yield self.with_items(wl, tasks)
             for j, p in enumerate(t["parts"]):
                 if p != corpus.MICRO[0] and text_key(p) not in wl["plan"]:
                     parts = t["parts"][:j] + [corpus.MICRO[0]] + t["parts"][j + 1:]
-                    tasks = wl["tasks"][:i] + [{"name": t["name"], "parts": parts}] + wl["tasks"][i + 1:]
+                    tasks = wl["tasks"][:i] + [dict(t, parts=parts)] + wl["tasks"][i + 1:]
                     yield self.with_items(wl, tasks)
         for k in list(wl["plan"]):
             plan = dict(wl["plan"])
@@ -456,7 +514,8 @@ class EngineP(EngineBase):
             wl = self.generate(ch, 10**6 + i)
             # natural errors only: injected fault classes live in this process' module and the
             # unpickle-failure ones hang the real pool by design
-            wl = {"mode": "real", "tasks": wl["tasks"][:6], "plan": {}}
+            first = [t for t in wl["tasks"] if t.get("call", 0) == 0][:6]
+            wl = {"mode": "real", "tasks": [dict(t, call=0) for t in first], "plan": {}}
             exp = self.reference(wl)
             old_err = sys.stderr
             sys.stderr = self._devnull
